@@ -17,7 +17,7 @@ RULE = ('seeded value generator (ints of any magnitude, floats incl. -0.0/inf/na
         'distinct_nontrivial = distinct (value class, storage mode read from the row, side of T, disk class, store '
         'path) cells')
 DISTINCT = ('cells',)
-REQUIRED = ('numbers_stepped_in_place', 'stores_over_expired_file', 'stores_over_live_file', 'stores_over_expired_inline', 'mode_raw', 'mode_binary_file', 'mode_text_file', 'mode_pickle_inline', 'mode_pickle_file',
+REQUIRED = ('values_popped_in_abandoned_blocks', 'numbers_stepped_in_place', 'stores_over_expired_file', 'stores_over_live_file', 'stores_over_expired_inline', 'mode_raw', 'mode_binary_file', 'mode_text_file', 'mode_pickle_inline', 'mode_pickle_file',
             'streams', 'rejected_values', 'jsondisk_roundtrips', 'deque_roundtrips', 'index_roundtrips',
             'fanout_roundtrips', 'push_roundtrips', 'fault_injected_stores', 'configs_lookup_in_transaction',
             'configs_lookup_lock_free', 'relative_directory_roundtrips', 'relocated_directory_roundtrips',
@@ -283,6 +283,16 @@ def run_config(dc, sc, res, rng, T, proto, disk_name, level, budget):
                 ok &= case.judge(cls, path, 'read ' + kind, v, data, mode)
             pk, pv = cache.peekitem(last=True)
             ok &= case.judge(cls, path, 'peekitem', v, pv, mode)
+            if n % 4 == 0:
+                # taken out inside a transaction that is then abandoned: the value is as it was
+                try:
+                    with cache.transact():
+                        cache.pop(key)
+                        raise AbandonedBlock()
+                except AbandonedBlock:
+                    pass
+                res.count('values_popped_in_abandoned_blocks')
+                ok &= case.judge(cls, path, 'get after pop in an abandoned transaction', v, cache.get(key, '<MISSING>'), mode)
             if path != 'set' or n % 2:
                 ok &= case.judge(cls, path, 'pop', v, cache.pop(key), mode)
             else:
@@ -370,6 +380,10 @@ def run_config(dc, sc, res, rng, T, proto, disk_name, level, budget):
         cache.close()
         twin.close()
         sc.drop(d)
+
+
+class AbandonedBlock(Exception):
+    pass
 
 
 class ShortReads:
